@@ -1,12 +1,29 @@
 #!/bin/bash
-# usage: mutcheck.sh <PID> <file> <sed-expr> [tier]   -- apply a one-line mutation to /repo, run the check, revert.
+# usage: mutcheck.sh <PID> <file> <sed-expr> [tier]
+#   or:  mutcheck.sh <PID> --patch <patch-file> [tier]
+#   or:  mutcheck.sh <PID> --revert <commit-in-/repo> [tier]   (re-introduces a defect that a fix: commit repaired)
+# Applies a mutation to a PRIVATE copy of /repo (worktree /tmp/mutrepo-<PID>, never /repo itself),
+# runs the check against it (VERIF_REPO / VERIF_BUILD), and restores the copy.
 set -u
-pid=$1; f=$2; expr=$3; tier=${4:-quick}
-cd /repo || exit 9
-if [ -n "$(git status --short)" ]; then echo "repo dirty"; exit 9; fi
-sed -i "$expr" "$f"
-if [ -z "$(git diff --stat)" ]; then echo "MUTATION DID NOT APPLY: $expr"; exit 9; fi
-git diff | grep '^[-+]' | grep -v '^+++\|^---'
-cd /verif && python3 tools/check.py "$pid" --tier "$tier" 2>&1 | grep -E "VIOLATION|KNOWN|INCONCLUSIVE|what:|^\[$pid\]" | cut -c1-400
+pid=$1
+W=/tmp/mutrepo-$pid
+exec 9>/tmp/mutrepo-$pid.lock; flock 9
+if [ ! -d "$W" ]; then git -C /repo worktree add --detach -f "$W" HEAD >/dev/null 2>&1 || { echo "worktree failed"; exit 9; }; fi
+git -C "$W" checkout -q --detach "$(git -C /repo rev-parse HEAD)" && git -C "$W" checkout -q -- . && git -C "$W" clean -fdq
+cd "$W" || exit 9
+if [ "$2" = "--revert" ]; then
+  git -C /repo show "$3" | git apply -R || { echo "REVERT DID NOT APPLY"; exit 9; }
+  tier=${4:-quick}
+elif [ "$2" = "--patch" ]; then
+  git apply "$3" || { echo "PATCH DID NOT APPLY"; exit 9; }
+  tier=${4:-quick}
+else
+  f=$2; expr=$3; tier=${4:-quick}
+  sed -i "$expr" "$f"
+fi
+if [ -z "$(git diff --stat)" ]; then echo "MUTATION DID NOT APPLY"; exit 9; fi
+git diff | grep '^[-+]' | grep -v '^+++\|^---' | head -20
+if ! GOFLAGS=-mod=mod GOPROXY=off go build ./... 2>/tmp/mutbuild-$pid.log; then echo "MUTANT DOES NOT COMPILE"; head -5 /tmp/mutbuild-$pid.log; git checkout -q -- .; exit 9; fi
+cd /verif && VERIF_REPO="$W" VERIF_BUILD=/verif/build/mut-$pid python3 tools/check.py "$pid" --tier "$tier" 2>&1 | grep -E "VIOLATION|KNOWN|INCONCLUSIVE|what:|^\[$pid\]" | cut -c1-600
 echo "exit=${PIPESTATUS[0]}"
-git -C /repo checkout -- .
+git -C "$W" checkout -q -- .
